@@ -207,6 +207,8 @@ def run_rules(ctx, res):
     from .c07 import check_get_type
     mir = Mir(ctx["facts"]["mir"])
     check_get_type(mir, res, SITE)
+    from ..roles import roles_of
+    GT = roles_of(mir).terminal_get_type
     # the emitter treats the rendered payload type as opaque text: a value read from `.type_` / get_type(..)
     # only reaches the formatting machinery (it is printed), never a test, a comparison or a transformation;
     # and get_type is looked up under the name of a Terminal symbol
@@ -222,7 +224,7 @@ def run_rules(ctx, res):
         if e.k == "field" and e.a[1] == "type_" and str(e.a[2]).endswith("TerminalVariant"):
             return True
         if e.k == "call":
-            if e.a[0].endswith("::get_type"):
+            if GT is not None and e.site is not None and e.site.local and e.site.rkey == GT.key:
                 return True
             if e.a[0] == "std::fmt::format":
                 return False  # the result is emitted text
@@ -243,13 +245,16 @@ def run_rules(ctx, res):
     n_disp = 0
     n_lookup = 0
     efile_s = efile or "table_to_rust.rs"
+    # the emitter = everything reachable from the stage that returns the emitted text (by role, wherever it lives)
+    emit = roles_of(mir).stage_emit
+    scope = set(mir.reachable_from([emit.key], include_trait_impls=False)) if emit is not None else set()
     for fn in mir.fns.values():
-        if fn.derived or not fn.file.endswith(efile_s.rsplit("/", 1)[-1]):
+        if fn.derived or not (fn.key in scope or fn.file.endswith(efile_s.rsplit("/", 1)[-1])) or "/parser.rs" in fn.file:
             continue
         fex = None
         for c in fn.calls():
             rp = c.rpath or c.path or "?"
-            if rp.endswith("::get_type") and len(c.args) >= 2:
+            if GT is not None and c.local and c.rkey == GT.key and len(c.args) >= 2:
                 fex = fex or Exprs(fn)
                 ke = strip_transparent(fex.operand(c.args[1]))
                 good = ke.k == "field" and ke.a[1] == "name" and "as Terminal" in canon(ke)
